@@ -61,3 +61,21 @@ def validate_scenarios(ctx, module, cfg_text, scenarios, name, on_reject, max_re
             ctx.notes.append("%s: stopped re-validating after %d rejected scenarios (%d left unvalidated)" % (name, rejects, len(remaining) - accepted_before))
             return accepted_before
     return 0
+
+
+def annotate_invocations(events, fields, proc="p", default=None):
+    """Copies fields of each `ret` event onto the matching earlier `inv` event of the same process (as
+    r_<field>), so that a trace spec can restrict its linearisation search to outcomes consistent with the
+    reply that was actually observed (pure pruning: the reply is checked again at the `ret` event)."""
+    pending = {}
+    for e in events:
+        if e.get("ev") == "inv":
+            pending[e.get(proc)] = e
+            for f in fields:
+                e["r_" + f] = (default or {}).get(f)
+        elif e.get("ev") == "ret" and e.get(proc) in pending:
+            inv = pending.pop(e.get(proc))
+            for f in fields:
+                if f in e:
+                    inv["r_" + f] = e[f]
+    return events
